@@ -142,13 +142,18 @@ def h_getattr(eng, obj, name, st, node):
 
 def h_effect(eng, oid, name, args, kwargs, st, node):
     if name == 'wait':
+        q0 = head(eng, st)
+        st.ghost = dict(st.ghost)
+        st.ghost['head_at_wait'] = (q0['empty'], q0['time'])
         # the lock is released while waiting: other threads may do anything
         st.objs['__queue'] = {}
         for o in ('cls:SystemClock', 'self'):
             if o in st.objs:
                 st.objs[o].pop('_run_sched', None)
                 st.objs[o]['_run_sched'] = vbool(z3.Bool('run_sched!%d' % next(eng.counter)))
-        st.trace.append(('wait', args[0].z if args else None))
+        # the queue head as the thread knows it when it goes to sleep
+        st.trace.append(('wait', to_real(args[0]) if args else None,
+                         st.ghost.get('head_at_wait')))
     return None
 
 
@@ -215,6 +220,29 @@ def perform_iteration(timebase, sched_name):
     return inv
 
 
+def fresh_deadline(conv):
+    """per-iteration obligation of the 'wait until an event is ready' loop: a
+    timed wait sleeps exactly until the CURRENT earliest entry (read after the
+    previous wait, not a stale one) measured from a time reading of this
+    iteration"""
+    def inv(c, L):
+        ev = since(c.trace, 2)
+        if not ev:
+            return z3.BoolVal(True)
+        waits = [e for e in ev if e[0] == 'wait']
+        times = [e for e in ev if e[0] == 'time']
+        if not waits:
+            return z3.BoolVal(True)
+        if len(waits) != 1 or not times or waits[0][1] is None or waits[0][2] is None:
+            return z3.BoolVal(False)
+        if ev.index(times[-1]) > ev.index(waits[0]):
+            return z3.BoolVal(False)
+        empty_at_wait, head_time = waits[0][2]
+        return z3.And(z3.Not(empty_at_wait),
+                      waits[0][1] == conv(c, head_time) - times[-1][1])
+    return inv
+
+
 def secs_identity(c, x):
     return x
 
@@ -232,7 +260,8 @@ LOOPS_SYS = {
             kinds={'now': 'real'}, havoc_hook=forget_queue),
     1: Loop(inv=lambda c, L: clockfloor(c) >= 0, havoc_fields=[('main', '__clockfloor'), ('cls:SystemClock', '_run_sched')],
             havoc_hook=forget_queue),
-    2: Loop(inv=lambda c, L: z3.And(clockfloor(c) >= 0, L.now <= clockfloor(c)),
+    2: Loop(inv=lambda c, L: z3.And(clockfloor(c) >= 0, L.now <= clockfloor(c),
+                                    fresh_deadline(secs_identity)(c, L)),
             havoc_fields=[('main', '__clockfloor'), ('cls:SystemClock', '_run_sched')], kinds={'now': 'real'},
             havoc_hook=forget_queue),
     3: Loop(inv=perform_iteration(secs_identity, 'SystemClock._sched_add'),
@@ -364,6 +393,11 @@ def remember_map(eng, st):
     st.ghost['map_at_head'] = (fld('_beat_dur'), fld('_base_seconds'), fld('_base_beats'))
 
 
+def beats_to_secs_now(c, beats):
+    s = c.post.self          # no field changes between the peek and the wait
+    return (beats - s._base_beats) * s._beat_dur + s._base_seconds
+
+
 TFIELDS = [('self', '_run_sched'), ('self', '_tempo'), ('self', '_beat_dur'),
            ('self', '_base_seconds'), ('self', '_base_beats'), ('self', '_beats'),
            ('main', '__clockfloor')]
@@ -371,8 +405,8 @@ LOOPS_T = {
     0: Loop(inv=lambda c, L: z3.BoolVal(True), havoc_fields=TFIELDS, kinds={'elapsed_beats': 'real'},
             havoc_hook=forget_queue),
     1: Loop(inv=lambda c, L: z3.BoolVal(True), havoc_fields=TFIELDS, havoc_hook=forget_queue),
-    2: Loop(inv=lambda c, L: z3.BoolVal(True), havoc_fields=TFIELDS, kinds={'elapsed_beats': 'real'},
-            havoc_hook=forget_queue),
+    2: Loop(inv=lambda c, L: fresh_deadline(beats_to_secs_now)(c, L), havoc_fields=TFIELDS,
+            kinds={'elapsed_beats': 'real'}, havoc_hook=forget_queue),
     3: Loop(inv=lambda c, L: z3.And(tperform(c, L), tlt(c, L)),
             havoc_fields=[('main', '_in_awake_call'), ('self', '_beats'), ('self', '_tempo'),
                           ('self', '_beat_dur'), ('self', '_base_seconds'), ('self', '_base_beats')],
